@@ -2,6 +2,7 @@
 import Flax.Base.Proto
 import Flax.Model.Frozen
 import Flax.Model.Struct
+import Flax.Model.FrozenList
 
 namespace Flax.Driver.C15
 open Lean Flax.Proto Flax.Frozen
@@ -213,6 +214,56 @@ def handle : Handler := fun fn args =>
 
 end Struct
 
+/-! ### list-aware companion model (unfreeze rebuilds every pytree node) -/
+namespace L
+
+def valOfJson (j : Json) : Except String FrozenL.Val :=
+  match j.getObjVal? "r" with
+  | .ok a => do .ok (.ref (← asNat a))
+  | .error _ => do .ok (.leaf (← asInt j))
+
+def objOfJson (j : Json) : Except String FrozenL.Obj :=
+  match j.getObjVal? "d", j.getObjVal? "l", j.getObjVal? "t", j.getObjVal? "f" with
+  | .ok kv, _, _, _ => do
+      let kvs ← asList (fun p => do
+        let k ← asStr (← argAt p 0)
+        let v ← valOfJson (← argAt p 1)
+        pure (k, v)) kv
+      .ok (.dict kvs)
+  | _, .ok xs, _, _ => do .ok (.list (← asList valOfJson xs))
+  | _, _, .ok xs, _ => do .ok (.tuple (← asList valOfJson xs))
+  | _, _, _, .ok i => do .ok (.frozen (← asNat i))
+  | _, _, _, _ => .error "bad-args"
+
+/-- nested dump of a value with the address of every container -/
+def dump : Nat → FrozenL.Heap → FrozenL.Val → Json
+  | _, _, .leaf n => Json.num n
+  | 0, _, .ref _ => .null
+  | n + 1, h, .ref a =>
+    match h[a]? with
+    | none => .null
+    | some (.dict kvs) =>
+      Json.mkObj [("k", .str "d"), ("addr", Json.num a),
+        ("items", .arr (kvs.map (fun p => Json.arr #[.str p.1, dump n h p.2])).toArray)]
+    | some (.list xs) => Json.mkObj [("k", .str "l"), ("addr", Json.num a), ("items", .arr (xs.map (dump n h)).toArray)]
+    | some (.tuple xs) => Json.mkObj [("k", .str "t"), ("addr", Json.num a), ("items", .arr (xs.map (dump n h)).toArray)]
+    | some (.frozen i) => Json.mkObj [("k", .str "f"), ("addr", Json.num a), ("items", .arr #[dump n h (.ref i)])]
+
+def handle : Handler := fun fn args =>
+  match fn with
+  | "l.unfreeze" => do
+      let h ← asList objOfJson (← argAt args 0)
+      let f ← asNat (← argAt args 1)
+      let w := match args.getArrVal? 2 with
+        | .ok (.str "dictsOnly") => FrozenL.Walk.dictsOnly
+        | _ => FrozenL.Walk.all
+      match FrozenL.unfreeze w h f with
+      | some (h', v') => .ok (Json.mkObj [("base", Json.num h.length), ("res", dump (h'.length + 1) h' v')])
+      | none => .error "Recursion"
+  | _ => .error "bad-op"
+
+end L
+
 def handle : Handler := fun fn args =>
   match fn with
   | "run" => do
@@ -232,7 +283,7 @@ def handle : Handler := fun fn args =>
       match unflatten r.2 r.1 with
       | some (t, []) => .ok (treeToJson t)
       | _ => .error "StructureMismatch"
-  | _ => Struct.handle fn args
+  | _ => if fn.startsWith "l." then L.handle fn args else Struct.handle fn args
 
 end Flax.Driver.C15
 
